@@ -274,8 +274,8 @@ theorem rep_callee {G : GCtx} (ok : G.OK) {pi : PInfo} (hpi : pi ∈ G.procs) (w
                 simp only [Except.ok.injEq, Val.int.injEq] at hr
                 subst hr
                 obtain ⟨a, ha, hm⟩ := hg.gvars n w' hn hgl
-                have h2 := ok.gloc_ge n a ha
-                have hlt := ok.gloc_lo n a ha
+                have h2 := ok.gloc_ge n hn a ha
+                have hlt := ok.gloc_lo n hn a ha
                 have htop := ok.top
                 refine ⟨a, ?_, by unfold memWords at *; omega, ?_⟩
                 · show G.locOf pi (spc - G.S pi) n = _
@@ -313,7 +313,7 @@ theorem rep_callee {G : GCtx} (ok : G.OK) {pi : PInfo} (hpi : pi ∈ G.procs) (w
       · have hgv' : G.xc.genv.lookup n = some .var := hgv
         have hn : n ∈ G.gnames := (ok.genv_vars n).mpr hgv'
         obtain ⟨a, ha⟩ := ok.gloc_some n hn
-        have hlt := ok.gloc_lo n a ha
+        have hlt := ok.gloc_lo n hn a ha
         refine ⟨a, ?_, ?_⟩
         · show G.locOf pi (spc - G.S pi) n = _
           rw [ok.gloc_ok pi hpi _ n hn]; exact ha
@@ -342,7 +342,7 @@ theorem GRep.frame {G : GCtx} (ok : G.OK) {σ σ' : X.St} {mem mem' : Mem} (h : 
   · intro n w hn hl
     rw [hg] at hl
     obtain ⟨a, ha, hv⟩ := h.gvars n w hn hl
-    exact ⟨a, ha, by rw [hm a (ok.gloc_ge n a ha) (ok.gloc_lo n a ha)]; exact hv⟩
+    exact ⟨a, ha, by rw [hm a (ok.gloc_ge n hn a ha) (ok.gloc_lo n hn a ha)]; exact hv⟩
   · intro v l j k hmem hd
     rw [hm _ (ok.const_ge v l j k hmem hd) (ok.const_lo v l j k hmem hd)]
     exact h.consts v l j k hmem hd
